@@ -172,9 +172,6 @@ func main() {
 		c.D.Notes = append(c.D.Notes,
 			"direct evaluation runs the real codecs on every prefix: it covers the bit readers' end-of-stream handling (VP8 bool decoder, VP8L bit reader, ALPH), which the Coq theorems treat as a parameter of the container/glue layer",
 			"correspondence: container.NewParser on every prefix vs the extracted ParserModel.parse (result class, features, frame payload/alpha digests and lengths)")
-		v := probeVariant()
-		c.Case(v.line(), v.line())
-		c.Count(fmt.Sprintf("variant:noimage-fix=%v", v.NoImage))
 		files := c17Files(c)
 		for _, f := range files {
 			full := runAPIs(f.Data)
